@@ -81,6 +81,8 @@ pub struct Kid {
     pub self_wake: u32,
     pub wake_other: Option<u32>,
     pub wake_in_drop: bool,
+    /// wakes its own waker in the very poll in which it returns Ready
+    pub wake_on_ready: bool,
     pub drops: u8,
     pub finished_call: Option<u64>,
     pub woken_call: Option<u64>,
@@ -265,10 +267,19 @@ pub struct World {
     pub accepted_n: Cell<u64>,
     pub yielded_n: Cell<u64>,
     pub max_backlog: Cell<u64>,
+    pub desc: RefCell<String>,
 }
 
 thread_local! {
     static WORLD: RefCell<Option<Rc<World>>> = const { RefCell::new(None) };
+}
+/// print every violation as soon as it is raised (worker mode)
+pub static EAGER: std::sync::atomic::AtomicBool = std::sync::atomic::AtomicBool::new(false);
+/// progress beacon for the hang watchdog: (history index << 8) | phase
+pub static BEACON: std::sync::atomic::AtomicU64 = std::sync::atomic::AtomicU64::new(0);
+pub fn beacon_phase(phase: u8) {
+    let b = BEACON.load(std::sync::atomic::Ordering::Relaxed);
+    BEACON.store((b & !0xff) | phase as u64, std::sync::atomic::Ordering::Relaxed);
 }
 
 pub fn install(w: Option<Rc<World>>) {
@@ -316,6 +327,7 @@ impl World {
             accepted_n: Cell::new(0),
             yielded_n: Cell::new(0),
             max_backlog: Cell::new(0),
+            desc: RefCell::new(String::new()),
         })
     }
 
@@ -336,6 +348,14 @@ impl World {
 
     pub fn violation(&self, prop: &'static str, rule: &'static str, detail: String) {
         let mut v = self.viol.borrow_mut();
+        if EAGER.load(std::sync::atomic::Ordering::Relaxed) && v.len() < 4 {
+            // flushed at once: if the crate hangs or crashes later in this history, the
+            // orchestrator still learns what the monitors had already seen
+            use std::io::Write;
+            let line = crate::json::Obj::new().str("property", prop).str("rule", rule).str("detail", &detail).str("desc", &self.desc.borrow()).done();
+            let _ = writeln!(std::io::stdout(), "EARLY {line}");
+            let _ = std::io::stdout().flush();
+        }
         if v.len() < 16 {
             v.push(Violation { prop, rule, detail, clock: self.clock.get() });
         }
@@ -401,6 +421,7 @@ impl World {
             self_wake: 0,
             wake_other: None,
             wake_in_drop: false,
+            wake_on_ready: false,
             drops: 0,
             finished_call: None,
             woken_call: None,
@@ -597,6 +618,10 @@ impl World {
         }
         let ready = self.kids.borrow()[id as usize].ready;
         if ready {
+            if self.kids.borrow()[id as usize].wake_on_ready {
+                // hostile but legal: wake yourself and complete in the same poll
+                self.wake_ref(cx.waker(), id, 5);
+            }
             {
                 let mut ks = self.kids.borrow_mut();
                 let k = &mut ks[id as usize];
